@@ -184,6 +184,18 @@ func oddNames() (out []string) {
 	return
 }
 
+// fillPointerTexts: a vector with a fill pointer made smaller than, or given a fill pointer
+// beyond, its storage by adjust-array, then handed to everything that walks up to the fill pointer.
+func fillPointerTexts() (out []string) {
+	for _, adj := range []string{"(adjust-array v 1)", "(adjust-array v 0)", "(adjust-array v 2 :fill-pointer 5)", "(adjust-array v 3 :fill-pointer 3)", "(adjust-array v 8 :fill-pointer 9)"} {
+		for _, use := range []string{"(vector-pop v)", "(gi:channel-pop v)", "(vector-push 1 v)", "(vector-push-extend 1 v)", "(length v)", "(elt v 1)", "(aref v 1)",
+			"(princ-to-string v)", "(coerce v 'list)", "(reverse v)", "(fill-pointer v)", "(setf (fill-pointer v) 1)", "(subseq v 0)", "(map 'list #'identity v)", "(sort v #'<)", "(copy-seq v)"} {
+			out = append(out, "(let ((v (make-array 4 :fill-pointer 2 :adjustable t :initial-element 0))) (ignore-errors "+adj+") "+use+")")
+		}
+	}
+	return
+}
+
 var srcCache []string
 
 // srcTexts: every literal text and every generated name, each once for plain
@@ -194,6 +206,9 @@ func srcTexts() []string {
 			srcCache = append(srcCache, t, "C:"+t)
 		}
 		for _, t := range oddNames() {
+			srcCache = append(srcCache, t, "C:"+t)
+		}
+		for _, t := range fillPointerTexts() {
 			srcCache = append(srcCache, t, "C:"+t)
 		}
 		for _, g := range srcGenerated {
